@@ -15,6 +15,9 @@ from ..core.outcome import Violation
 NAME = "clocksim"
 SIM_UNIT = "clock ticks"
 BUDGET = {"quick": {"runs": 30000, "wall": 80}, "thorough": {"runs": 150000, "wall": 1200}}
+ISOLATE = "chunk"       # every chunk of runs in a forked child of a pristine worker: what a run sees of the process is a
+                        # deterministic function of the runs before it in the same chunk (see runner.run_history_iso)
+CHUNK = 128
 SHRINK_LISTS = ("ops",)
 PROBES = {"C15": ["state_dict-roundtrip", "deepcopy-continue", "lti:broadcast-constants", "custom-forward", "ltv-property-only", "refpoint-same-state-new-time", "jump-back", "jump-forward", "jump-tensor", "reset-nonzero", "refpoint-default",
                   "refpoint-explicit", "read-after-call-since-refpoint", "read-after-jump-since-refpoint",
